@@ -5,7 +5,25 @@ C01 — Impl model of vm/vm.go's `eval` on the bytecode produced by `Compile.lea
 correspondence check shows identical to the real compiler's): operand stack, frames with
 local slots, cells addressing local slots POSITIONALLY (`MakeCell idx framesBack` looks at
 `frames[fp - framesBack]`, as the code does), closures, iterators, builtins `len`/`print`,
-`list.append`.  Small-step `step`, run by fuel.  Core Lean only.
+`list.append`, `error`, `try`, partials (`Partial`, `Defer`), sets and maps (`BuildSet`, `BuildMap`,
+subscripts, `ContainsOp`), strings by rune.  Small-step `step`, run by fuel.  Core Lean only.
+
+Calls.  The real VM runs every function call through the RECURSIVE `callFunction` (a nested
+`eval` that stops at `ReturnValue`), and `builtins.Try` and the deferred calls call back into
+it.  The model keeps one explicit frame list instead; what the Go recursion remembers is kept in
+the frame itself:
+
+  * `kont`     what the caller of this activation does with its outcome: `.ret` (an ordinary
+               `Call`: push the value / pass the error on) or `.tryK rest last` (the activation
+               is an argument of `try`: a catchable error makes `try` go on with `rest`);
+  * `defers`   the partials recorded by `Defer`, most recent first (`frame.Defer` prepends);
+  * `exiting`  set when the body is over — `.value v` after `ReturnValue` (the real VM has
+               already gone back to the caller's frame: the activation no longer counts for
+               `MakeCell`'s positional frame lookup), `.error e` when the body failed (`vm.fp`
+               still is this frame) — while the deferred calls run on top of it.
+
+An error travels in `VM.raising`; every step with `raising` set unwinds one frame (the deferred
+`resumeFrame` of `callFunction`, which also drops the operands the frame left behind).
 -/
 namespace Risor.C01
 open Risor.C04 (Op Ins)
@@ -21,7 +39,38 @@ inductive VVal where
   | bound (ref : Nat) (method : String)         -- list method value
   | cell (addr : Nat)
   | iter (id : Nat)
+  | err (cls : String) (msg : Option String)    -- an error value (not raised)
+  | partial_ (ref : Nat)                        -- `object.Partial`: callee and arguments in `VM.partials`
+  | set (ref : Nat)                             -- heap entry: items sorted by hash key
+  | map (ref : Nat)                             -- heap entry: key, value, … sorted by key
   deriving Repr, DecidableEq, Inhabited
+
+def vHashKey : VVal → Option HKey
+  | .nil => some ("nil", 0, "")
+  | .bool b => some ("bool", if b then 1 else 0, "")
+  | .int i => some ("int", i, "")
+  | .str s => some ("string", 0, s)
+  | _ => none
+
+def VVal.str? : VVal → Option String
+  | .str s => some s
+  | _ => none
+
+/-- a raised error: class, and the message when the script made it -/
+structure Err where
+  cls : String
+  msg : Option String := none
+  deriving Repr, DecidableEq, Inhabited
+
+inductive Kont where
+  | ret
+  | tryK (rest : List VVal) (last : Option Err)
+  deriving Repr, Inhabited
+
+inductive Exit where
+  | value (v : VVal)
+  | error (e : Err)
+  deriving Repr, Inhabited
 
 inductive IterSt where
   | overList (ref : Nat) (pos : Int)            -- pos = index of the current item, -1 before the first
@@ -34,6 +83,10 @@ structure Frame where
   base : Nat               -- address of local slot 0 in `store`
   free : List Nat          -- cell addresses of the running closure
   spBase : Nat             -- operand-stack height at entry (restored on return)
+  kont : Kont := .ret
+  defers : List (VVal × List VVal) := []
+  exiting : Option Exit := none
+  ghost : Bool := false    -- the activation has executed `ReturnValue`: the real VM is back in the caller's frame
   deriving Repr, Inhabited
 
 structure VM where
@@ -44,7 +97,9 @@ structure VM where
   store : Array VVal := #[]        -- local slots of all activations
   heap : Array (List VVal) := #[]
   iters : Array IterSt := #[]
+  partials : Array (VVal × List VVal) := #[]
   out : List String := []
+  raising : Option Err := none
   deriving Inhabited
 
 inductive VRes where
@@ -53,6 +108,11 @@ inductive VRes where
   | err (cls : String)
   | unsupported (what : String)
   deriving Repr, Inhabited
+
+/-- frames the real VM's `fp` counts: activations that have not executed `ReturnValue` yet -/
+def VM.liveFrames (m : VM) : List Frame := m.frames.filter (fun f => !f.ghost)
+
+def raise (m : VM) (e : Err) : Except VRes VM := .ok { m with raising := some e }
 
 def findCode (codes : List CodeB) (id : String) : Option CodeB := codes.find? (·.id == id)
 
@@ -63,7 +123,7 @@ def VVal.truthy (m : VM) : VVal → Bool
   | .bool b => b
   | .int i => i != 0
   | .str s => s != ""
-  | .list r => !(m.heap.getD r []).isEmpty
+  | .list r | .set r | .map r => !(m.heap.getD r []).isEmpty
   | _ => true
 
 def vEq (m : VM) : Nat → VVal → VVal → Bool
@@ -76,8 +136,20 @@ def vEq (m : VM) : Nat → VVal → VVal → Bool
     let la := m.heap.getD a []
     let lb := m.heap.getD b []
     la.length == lb.length && (la.zip lb).all (fun (x, y) => vEq m f x y)
+  | 0, .set a, .set b => a == b
+  | f + 1, .set a, .set b =>
+    let la := m.heap.getD a []
+    let lb := m.heap.getD b []
+    la.length == lb.length && (la.zip lb).all (fun (x, y) => vEq m f x y)
+  | 0, .map a, .map b => a == b
+  | f + 1, .map a, .map b =>
+    let la := m.heap.getD a []
+    let lb := m.heap.getD b []
+    la.length == lb.length && (la.zip lb).all (fun (x, y) => vEq m f x y)
   | _, .fn a fa, .fn b fb => a == b && fa == fb
   | _, .builtin a, .builtin b => a == b
+  | _, .err _ a, .err _ b => a == b
+  | _, .partial_ a, .partial_ b => a == b
   | _, _, _ => false
 
 def vInspect (m : VM) : Nat → VVal → String
@@ -87,12 +159,25 @@ def vInspect (m : VM) : Nat → VVal → String
   | _, .str s => "\"" ++ s ++ "\""
   | 0, .list _ => "[...]"
   | f + 1, .list r => "[" ++ ", ".intercalate ((m.heap.getD r []).map (vInspect m f)) ++ "]"
+  | _, .err _ (some msg) => "error(\"" ++ msg ++ "\")"
+  | 0, .set _ | 0, .map _ => "{...}"
+  | f + 1, .set r => "{" ++ ", ".intercalate ((m.heap.getD r []).map (vInspect m f)) ++ "}"
+  | f + 1, .map r => "{" ++ ", ".intercalate (pairUp ((m.heap.getD r []).map (vInspect m f))) ++ "}"
   | _, _ => "object"
 
 def vDisplay (m : VM) (v : VVal) : String :=
   match v with
   | .str s => s
+  | .err _ (some msg) => msg
   | v => vInspect m 8 v
+
+/-- the text of the value is outside the model (runtime-made error message, function source, …) -/
+def vTextUnknown (m : VM) : Nat → VVal → Bool
+  | _, .nil | _, .bool _ | _, .int _ | _, .str _ => false
+  | _, .err _ (some _) => false
+  | 0, .list _ | 0, .set _ | 0, .map _ => true
+  | f + 1, .list r | f + 1, .set r | f + 1, .map r => (m.heap.getD r []).any (vTextUnknown m f)
+  | _, _ => true
 
 /-- `object.BinaryOp` (opcode operand 1..13) -/
 def vBinary (m : VM) (k : Nat) (a b : VVal) : Except VRes (VVal × VM) :=
@@ -124,6 +209,9 @@ def vCompare (m : VM) (k : Nat) (a b : VVal) : Except VRes VVal :=
       .ok (.bool (if k == 1 then x < y else if k == 2 then x ≤ y else if k == 5 then x > y else x ≥ y))
     | .str x, .str y =>
       .ok (.bool (if k == 1 then x < y else if k == 2 then x ≤ y else if k == 5 then x > y else x ≥ y))
+    | .bool x, .bool y =>
+      .ok (.bool (if k == 1 then !x && y else if k == 2 then !x || y else if k == 5 then x && !y else x || !y))
+    | .nil, .nil => .ok (.bool (if k == 1 then false else if k == 2 then true else if k == 5 then false else true))
     | _, _ => .error (.err "type")
 
 def setPc (m : VM) (pc : Nat) : VM :=
@@ -132,7 +220,7 @@ def setPc (m : VM) (pc : Nat) : VM :=
   | [] => m
 
 /-- enter a function: `callFunction` (arity, defaults, self slot) -/
-def enter (m : VM) (codeId : String) (free : List Nat) (args : List VVal) : Except VRes VM :=
+def enter (m : VM) (codeId : String) (free : List Nat) (args : List VVal) (kont : Kont := .ret) : Except VRes VM :=
   match findCode m.codes codeId with
   | none => .error (.err "eval")
   | some c =>
@@ -154,36 +242,103 @@ def enter (m : VM) (codeId : String) (free : List Nat) (args : List VVal) : Exce
         let base := m.store.size
         let nslots := locals.length + 64
         let store := (locals ++ List.replicate (nslots - locals.length) VVal.nil).foldl (fun s v => s.push v) m.store
-        if m.frames.length ≥ 1024 then .error (.err "panic")
+        if m.liveFrames.length ≥ 1024 then .error (.err "panic")
         else
           .ok { m with store := store,
-                       frames := { codeId := codeId, pc := 0, base := base, free := free, spBase := m.stack.length } :: m.frames }
+                       frames := { codeId := codeId, pc := 0, base := base, free := free, spBase := m.stack.length, kont := kont } :: m.frames }
 
-/-- call any callable with arguments already popped; pushes the result or enters a frame -/
-def callValue (m : VM) (fv : VVal) (args : List VVal) : Except VRes VM :=
+/-- outcome of a callable that runs inside the Go call (`object.Callable`) -/
+inductive BRes where
+  | ok (v : VVal) (m : VM)
+  | fail (e : Err)
+  | unsupported (what : String)
+
+/-- builtins and bound methods other than `try` (which calls back into the VM) -/
+def callImmediate (m : VM) (fv : VVal) (args : List VVal) : BRes :=
   match fv with
-  | .fn id free => enter m id free args
   | .builtin "len" =>
     match args with
-    | [.str s] => .ok { m with stack := .int s.length :: m.stack }
-    | [.list r] => .ok { m with stack := .int (m.heap.getD r []).length :: m.stack }
-    | [_] => .error (.err "type")
-    | _ => .error (.err "args")
+    | [.str s] => .ok (.int s.length) m
+    | [.list r] => .ok (.int (m.heap.getD r []).length) m
+    | [.set r] => .ok (.int (m.heap.getD r []).length) m
+    | [.map r] => .ok (.int ((m.heap.getD r []).length / 2)) m
+    | [_] => .fail { cls := "type" }
+    | _ => .fail { cls := "args" }
   | .builtin "print" =>
-    .ok { m with stack := .nil :: m.stack, out := " ".intercalate (args.map (vDisplay m)) :: m.out }
+    if args.any (vTextUnknown m 8) then .unsupported "text of a runtime-made error or of a function"
+    else .ok .nil { m with out := " ".intercalate (args.map (vDisplay m)) :: m.out }
+  | .builtin "error" =>
+    match args with
+    | [] => .fail { cls := "args" }
+    | .err c msg :: _ => .fail { cls := c, msg := msg }
+    | [.str s] => if s.contains '%' then .unsupported "error() with a format string" else .fail { cls := "error", msg := some s }
+    | .str _ :: _ => .unsupported "error() with format arguments"
+    | _ => .fail { cls := "type" }
   | .bound r "append" =>
     match args with
-    | [v] => .ok { m with stack := .list r :: m.stack, heap := m.heap.setIfInBounds r (m.heap.getD r [] ++ [v]) }
-    | _ => .error (.err "args")
-  | .builtin n => .error (.unsupported ("builtin " ++ n))
-  | .bound _ n => .error (.unsupported ("method " ++ n))
-  | _ => .error (.err "type")
+    | [v] => .ok (.list r) { m with heap := m.heap.setIfInBounds r (m.heap.getD r [] ++ [v]) }
+    | _ => .fail { cls := "args" }
+  | .builtin n => .unsupported ("builtin " ++ n)
+  | .bound _ n => .unsupported ("method " ++ n)
+  | _ => .fail { cls := "type" }          -- `callObject`: object is not callable
+
+/-- `builtins.Try` from argument `a :: rest` on, `last` = the error caught so far.  A function
+    argument is ENTERED (frame with continuation `.tryK rest last`); the loop goes on from
+    `step` when that frame fails with a catchable error. -/
+def tryLoop (m : VM) : List VVal → Option Err → Except VRes VM
+  | [], _ => .ok { m with stack := .nil :: m.stack }
+  | a :: rest, last =>
+    let lastArgs : List VVal := match last with
+      | some e => [.err e.cls e.msg]
+      | none => []
+    match a with
+    | .fn id free =>
+      let np := match findCode m.codes id with
+        | some c => c.params.length
+        | none => 0
+      match enter m id free (if np > 0 then lastArgs else []) (.tryK rest last) with
+      | .ok m' => .ok m'
+      | .error (.err cls) => raise m { cls := cls }      -- args / eval / panic: none of them catchable
+      | .error r => .error r
+    | .builtin "try" =>
+      -- `try` as an argument of `try`: called with nothing (args error) or with the caught error, which it returns
+      match lastArgs with
+      | [] => raise m { cls := "args" }
+      | v :: _ => .ok { m with stack := v :: m.stack }
+    | .builtin _ | .bound _ _ =>
+      match callImmediate m a lastArgs with
+      | .ok v m' => .ok { m' with stack := v :: m'.stack }
+      | .fail e => if uncatchable e.cls then raise m e else tryLoop m rest (some e)
+      | .unsupported w => .error (.unsupported w)
+    | v => .ok { m with stack := v :: m.stack }
+
+/-- `callObject`: call any callable with arguments already popped; pushes the result, enters a
+    frame, or starts raising an error.  Fuel bounds the nesting of partials. -/
+def callValue : Nat → VM → VVal → List VVal → Except VRes VM
+  | _, m, .fn id free, args =>
+    match enter m id free args .ret with
+    | .ok m' => .ok m'
+    | .error (.err cls) => raise m { cls := cls }
+    | .error r => .error r
+  | _, m, .builtin "try", args =>
+    if args.isEmpty || args.length > 64 then raise m { cls := "args" } else tryLoop m args none
+  | 0, _, .partial_ _, _ => .error (.unsupported "deeply nested partials")
+  | fuel + 1, m, .partial_ r, args =>
+    match m.partials[r]? with
+    | some (fn, pargs) => callValue fuel m fn (args ++ pargs)
+    | none => .error (.err "eval")
+  | _, m, fv, args =>
+    match callImmediate m fv args with
+    | .ok v m' => .ok { m' with stack := v :: m'.stack }
+    | .fail e => raise m e
+    | .unsupported w => .error (.unsupported w)
 
 def popN (n : Nat) (st : List VVal) : Option (List VVal × List VVal) :=
   if n ≤ st.length then some ((st.take n).reverse, st.drop n) else none
 
-/-- one instruction of `eval` -/
-def step (m : VM) : Except VRes VM :=
+/-- one instruction of `eval` in the running top frame.  `.error (.err cls)` = the instruction
+    fails with a runtime error of that class (turned into `raising` by `step`). -/
+def exec (m : VM) : Except VRes VM :=
   match m.frames with
   | [] => .error (.err "eval")
   | fr :: outer =>
@@ -227,7 +382,7 @@ def step (m : VM) : Except VRes VM :=
           | none => .error (.err "panic")
         | .makeCell, s =>
           -- positional: the frame `framesBack` below the active one
-          match m.frames[i.b]? with
+          match m.liveFrames[i.b]? with
           | some target => .ok { m1 with stack := .cell (target.base + i.a) :: s }
           | none => .error (.err "eval")
         | .loadClosure, s =>
@@ -272,6 +427,22 @@ def step (m : VM) : Except VRes VM :=
           match popN i.a s with
           | some (items, rest) => .ok { m1 with stack := .list m.heap.size :: rest, heap := m.heap.push items }
           | none => .error (.err "panic")
+        | .buildSet, s =>
+          match popN i.a s with
+          | some (items, rest) =>
+            match mkSetItems vHashKey items with
+            | some l => .ok { m1 with stack := .set m.heap.size :: rest, heap := m.heap.push l }
+            -- `vm.push(object.NewSet(items))`: NewSet RETURNS the type error of an unhashable item and
+            -- BuildSet pushes that error object as the value of the literal; nothing is raised
+            | none => .ok { m1 with stack := .err "type" none :: rest }
+          | none => .error (.err "panic")
+        | .buildMap, s =>
+          match popN (2 * i.a) s with
+          | some (items, rest) =>
+            match mkMapItems VVal.str? VVal.str items [] with
+            | some l => .ok { m1 with stack := .map m.heap.size :: rest, heap := m.heap.push l }
+            | none => .error (.err "panic")       -- `k.(*object.String)`
+          | none => .error (.err "panic")
         | .buildString, s =>
           match popN i.a s with
           | some (items, rest) => .ok { m1 with stack := .str (String.join (items.map (vDisplay m))) :: rest }
@@ -284,7 +455,18 @@ def step (m : VM) : Except VRes VM :=
             | some j => .ok { m1 with stack := l.getD j.toNat .nil :: s }
             | none => .error (.err "index")
           | .list _, _ => .error (.err "type")
-          | _, _ => .error (.unsupported "index on a non-list")
+          | .str x, .int k =>
+            let cs := x.toList
+            match resolveIndex k cs.length with
+            | some j => .ok { m1 with stack := .str (String.ofList [cs.getD j.toNat ' ']) :: s }
+            | none => .error (.err "index")
+          | .str _, _ => .error (.err "type")
+          | .map r, .str k =>
+            match mapGet VVal.str? k (m.heap.getD r []) with
+            | some v => .ok { m1 with stack := v :: s }
+            | none => .error (.err "index")
+          | .map _, _ => .error (.err "type")
+          | _, _ => .error (.unsupported "index on this type")
         | .storeSubscr, idx :: obj :: rhs :: s =>
           match obj, idx with
           | .list r, .int k =>
@@ -293,25 +475,45 @@ def step (m : VM) : Except VRes VM :=
             | some j => .ok { m1 with stack := s, heap := m.heap.setIfInBounds r (l.set j.toNat rhs) }
             | none => .error (.err "index")
           | .list _, _ => .error (.err "type")
-          | _, _ => .error (.unsupported "item assignment on a non-list")
+          | .map r, .str k =>
+            .ok { m1 with stack := s, heap := m.heap.setIfInBounds r (mapSet VVal.str? VVal.str k rhs (m.heap.getD r [])) }
+          | .map _, _ => .error (.err "type")
+          | _, _ => .error (.unsupported "item assignment on this type")
         | .containsOp, x :: c :: s =>
           match c with
           | .list r =>
             let found := (m.heap.getD r []).any (fun y => vEq m 8 y x)
             .ok { m1 with stack := .bool (if i.a == 1 then !found else found) :: s }
-          | _ => .error (.unsupported "in on a non-list")
+          | .set r =>
+            match vHashKey x, x with
+            | some k, _ => .ok { m1 with stack := .bool ((m.heap.getD r []).any (fun y => vHashKey y == some k)) :: s }
+            | none, .err _ _ => .error (.unsupported "in with an error value")
+            | none, _ => .ok { m1 with stack := .bool false :: s }
+          | .map r =>
+            match x with
+            | .str k => .ok { m1 with stack := .bool (mapGet VVal.str? k (m.heap.getD r [])).isSome :: s }
+            | _ => .ok { m1 with stack := .bool false :: s }
+          | _ => .error (.unsupported "in on this type")
         | .length, c :: s =>
           match c with
           | .list r => .ok { m1 with stack := .int (m.heap.getD r []).length :: s }
           | .str x => .ok { m1 with stack := .int x.length :: s }
           | _ => .error (.err "type")
         | .slice, start :: stop :: c :: s =>
+          let toB : VVal → Option (Option Int)
+            | .int k => some (some k)
+            | .nil => some none
+            | _ => none
           match c with
+          | .str x =>
+            match toB start, toB stop with
+            | some lo, some hi =>
+              let cs := x.toList
+              match resolveSlice lo hi cs.length with
+              | some (a, b) => .ok { m1 with stack := .str (String.ofList ((cs.drop a.toNat).take (b - a).toNat)) :: s }
+              | none => .error (.err "index")
+            | _, _ => .error (.err "type")
           | .list r =>
-            let toB : VVal → Option (Option Int)
-              | .int k => some (some k)
-              | .nil => some none
-              | _ => none
             match toB start, toB stop with
             | some lo, some hi =>
               let l := m.heap.getD r []
@@ -319,7 +521,7 @@ def step (m : VM) : Except VRes VM :=
               | some (a, b) => .ok { m1 with stack := .list m.heap.size :: s, heap := m.heap.push ((l.drop a.toNat).take (b - a).toNat) }
               | none => .error (.err "index")
             | _, _ => .error (.err "type")
-          | _ => .error (.unsupported "slice of a non-list")
+          | _ => .error (.unsupported "slice of this type")
         | .unpack, c :: s =>
           match c with
           | .list r =>
@@ -362,15 +564,78 @@ def step (m : VM) : Except VRes VM :=
           | _ => .error (.err "panic")       -- the type assertion `.(object.Iterator)`
         | .call, s =>
           match popN i.a s with
-          | some (args, fv :: rest) => callValue { m1 with stack := rest } fv args
+          | some (args, fv :: rest) => callValue 8 { m1 with stack := rest } fv args
           | _ => .error (.err "panic")
+        | .partial_, s =>
+          match popN i.a s with
+          | some (args, fv :: rest) =>
+            .ok { m1 with stack := .partial_ m.partials.size :: rest, partials := m.partials.push (fv, args) }
+          | _ => .error (.err "panic")
+        | .defer_, v :: s =>
+          match v with
+          | .partial_ r =>
+            match m.partials[r]? with
+            | some d => .ok { m with stack := s, frames := { fr with pc := next, defers := d :: fr.defers } :: outer }
+            | none => .error (.err "eval")
+          | _ => .error (.err "type")
         | .returnValue, v :: _ =>
           if isMain then .error (.err "eval")
           else
-            -- resumeFrame: restore the caller's stack height and push the result
-            let callerStack := m.stack.drop (m.stack.length - fr.spBase)
-            .ok { m with frames := outer, stack := v :: callerStack }
+            -- the body is over with value `v`; the deferred calls run next (`step`)
+            .ok { m with frames := { fr with exiting := some (.value v), ghost := true } :: outer }
         | _, _ => .error (.err "panic")     -- stack underflow: index out of range in the real VM
+
+/-- an activation whose body is over: run its next deferred call, or leave it (`resumeFrame`:
+    the operands it left behind are dropped) and hand the outcome to its continuation -/
+def exitStep (m : VM) (fr : Frame) (outer : List Frame) (ex : Exit) : Except VRes VM :=
+  match fr.defers with
+  | (fn, args) :: rest => callValue 8 { m with frames := { fr with defers := rest } :: outer } fn args
+  | [] =>
+    let callerStack := m.stack.drop (m.stack.length - fr.spBase)
+    let m' := { m with frames := outer, stack := callerStack }
+    match ex with
+    | .value v => .ok { m' with stack := v :: callerStack }
+    | .error e =>
+      match fr.kont with
+      | .ret => raise m' e
+      | .tryK rest last => if uncatchable e.cls then raise m' e else tryLoop m' rest (some e)
+
+/-- one step of error propagation: the error reaches the top frame -/
+def unwind (m : VM) (e : Err) : Except VRes VM :=
+  match m.frames with
+  | [] => .error (.err "eval")
+  | [_] => .error (.err e.cls)               -- the main code: `vm.Run` returns the error
+  | fr :: outer =>
+    match fr.exiting with
+    | none =>
+      -- the body failed: its deferred calls run with the frame still active
+      .ok { m with raising := none, frames := { fr with exiting := some (.error e) } :: outer }
+    | some ex =>
+      -- a deferred call of this activation failed: a Go panic abandons the remaining deferred
+      -- calls; otherwise the error replaces the outcome, unless that is a panic under way
+      let (ex', ds) : Exit × List (VVal × List VVal) :=
+        if e.cls == "panic" then (.error e, [])
+        else
+          match ex with
+          | .error e0 => if e0.cls == "panic" then (ex, fr.defers) else (.error e, fr.defers)
+          | .value _ => (.error e, fr.defers)
+      .ok { m with raising := none, frames := { fr with exiting := some ex', defers := ds } :: outer }
+
+/-- one step of the machine -/
+def step (m : VM) : Except VRes VM :=
+  match m.raising with
+  | some e => unwind m e
+  | none =>
+    match m.frames with
+    | [] => .error (.err "eval")
+    | fr :: outer =>
+      match fr.exiting with
+      | some ex => exitStep m fr outer ex
+      | none =>
+        match exec m with
+        | .ok m' => .ok m'
+        | .error (.err cls) => raise m { cls := cls }
+        | .error r => .error r
 
 def runVM : Nat → VM → VRes × VM
   | 0, m => (.running, m)
